@@ -1143,9 +1143,10 @@ pub fn gen(prop: &str, verif_seed: u64, run_index: u64, tier: Tier) -> Trace {
         stress = false;
     }
     let mut conversion_run = false;
-    if prop == "C17" && rc.chance(1, 16) {
+    if (prop == "C17" && rc.chance(1, 16)) || (prop == "C02" && rc.chance(1, 32)) {
         // conversions (FromIterator / From<collection>) go through RandomState-keyed tables:
-        // their result must still be a function of the input alone
+        // their result must still be a function of the input alone (C17); a key given twice must
+        // hold the value given last (C02, `conversion_stale_value`)
         h = gen_header(Kind::Lru, &mut rc, false, 0, false, tier);
         h.random_state = true;
         h.key_type = "TK".into();
